@@ -38,7 +38,8 @@ PropsCheck(o, st, rc, pus) ==
 TInit ==
     /\ tid \in 1..Len(TraceLog)
     /\ l = 2
-    /\ cfg = [P |-> Tr.steps[1].P, age |-> Tr.steps[1].age, L0 |-> Tr.steps[1].L0, maxbuf |-> Tr.steps[1].maxbuf]
+    /\ cfg = [P |-> Tr.steps[1].P, age |-> Tr.steps[1].age, L0 |-> Tr.steps[1].L0, maxbuf |-> Tr.steps[1].maxbuf,
+              tick |-> Tr.steps[1].tick]
     /\ buf = <<>> /\ maxlen = cfg.L0
     /\ start = None /\ received = 0 /\ periodUs = None
     /\ hist = <<>> /\ lost = 0
